@@ -10,6 +10,7 @@ import GM.Props.C02c
 import GM.Props.Consts.Parser
 import GM.Props.C02Emph
 import GM.Props.C02Frag
+import GM.Props.C02Link
 
 namespace GM.Props.C02
 open GM GM.Spec.CM
@@ -130,5 +131,20 @@ theorem fragment_block_phase : type_of% @GM.Props.C02Frag.fragment_block_phase :
     make the byte loop of `parseBlock` consult an inline parser (`quiet`) and end neither in white space nor in a
     backslash, the inline phase yields exactly one Text node per line, with a soft line break on all but the last. -/
 theorem inline_phase_quiet_lines : type_of% @GM.Props.C02Frag.inline_phase_quiet_lines := @GM.Props.C02Frag.inline_phase_quiet_lines
+
+/-- (re-export of `GM.Props.C02Link.dest_form_sound`) `dest_form_sound`: whenever the reference accepts the parenthesised part of an inline link, the destination it
+    reports satisfies the grammar of the form it was recognised in — first form: the content of `<…>` has no line
+    ending and no unescaped `<` or `>`; second form: no space, no ASCII control character, does not start with `<`,
+    and every unescaped parenthesis belongs to a balanced pair (`bareDepth 0 … = some 0`). -/
+theorem link_dest_form_sound : type_of% @GM.Props.C02Link.dest_form_sound := @GM.Props.C02Link.dest_form_sound
+
+/-- (re-export of `GM.Props.C02Link.links_not_nested`) `links_not_nested` (6.3: "Links may not contain other links, at any level of nesting"): in the tree the reference
+    builds for ANY inline content no link node has a link below it, at any depth, also not inside the description
+    of an image inside it (the active / inactive bookkeeping of the bracket stack). -/
+theorem links_not_nested : type_of% @GM.Props.C02Link.links_not_nested := @GM.Props.C02Link.links_not_nested
+
+/-- (re-export of `GM.Props.C02Link.link_html_balanced`) the prescribed HTML of every tree is tag-balanced: the concatenation of an event sequence in which `<a …>` and
+    `</a>` nest properly (images, breaks, text and raw HTML are leaves; raw HTML is opaque) -/
+theorem link_html_balanced : type_of% @GM.Props.C02Link.link_html_balanced := @GM.Props.C02Link.link_html_balanced
 
 end GM.Props.C02
